@@ -148,7 +148,12 @@ SCHEMAS = {
                       dict(when="composing", accept="Control+j", send_sequence="{Home}{Shift+Right}"),
                       dict(when="always", accept="Control+m", send_sequence="ab,"), dict(when="always", accept="Control+z", send_sequence=""),
                       dict(when="always", accept="Control+t", send="Control+p"), dict(when="has_menu", accept="Control+y", send="period"),
-                      dict(when="always", accept="Control+w", send_sequence="a{Control+Shift+3}{Control+m}b")]),
+                      dict(when="always", accept="Control+w", send_sequence="a{Control+Shift+3}{Control+m}b"),
+                      # a key sent to itself (the stock `predicting: comma -> comma` idiom under a condition that is reachable
+                      # here), a two-key cycle and a sequence ending in its own key: replayed once, never redirected again
+                      dict(when="always", accept="Control+q", send="Control+q"), dict(when="composing", accept="semicolon", send="semicolon"),
+                      dict(when="always", accept="Control+x", send="Control+h"), dict(when="always", accept="Control+h", send="Control+x"),
+                      dict(when="composing", accept="Control+c", send_sequence="{Left}{Control+c}")]),
     # a fluid-editor schema without punctuator whose alphabet holds the period (not an initial): `a.b` is legal input, the period
     # pages down while a menu is open, and a letter right after it puts the period into the input after all
     # (KeyBinder::ReinterpretPagingKey); no `switches:` (option actions find nothing: plain set / toggle); vertical layout toggle
@@ -907,7 +912,7 @@ def eval_history(c, exe, ws, rows, sid, ops, monitor, tag="h"):
     script, index = make_script(rows, [(sid, ops)])
     rc, out, impl, model = run_both(c, exe, ws, script, tag)
     res = {"rc": rc, "impl": impl, "model": model, "first_diff": None, "first_viol": None, "log": out[-2500:] if rc else ""}
-    state = {"sid": sid}
+    state = {"sid": sid, "texts": [r[1] for r in rows]}
     if any("stall=1" in l for l in impl):
         # the process was stalled between a Shift / Control press and its release (harness): timing-dependent, inconclusive
         res["stalled"] = True
@@ -974,7 +979,7 @@ def session_check(c, pid, monitor, histories, rows_for, exe, ws, what_prop, repo
                         stats["commits"] += 1
                     if len(stats["samples"]) < 4 and o.get("menu") not in (None, "~") and j > 5:
                         stats["samples"].append({"schema": pending[h][0], "op": op, "observation": impl[i][:300]})
-                    why = monitor(states.setdefault(h, {"sid": pending[h][0]}), op, o)
+                    why = monitor(states.setdefault(h, {"sid": pending[h][0], "texts": [r[1] for r in rows]}), op, o)
                     if why and h not in bad_hist:
                         bad_hist[h] = ("viol", j, op, why)
                 if report_diffs and i < len(model) and impl[i] != model[i] and h not in bad_hist:
@@ -1241,6 +1246,22 @@ def reopen_grid(rows_for, hs, schemas=("vs_script", "vs_fluid", "vs_multi")):
                                    ["key %d 0" % XK["BackSpace"], "key %d 0" % XK["BackSpace"]], tid))
 
 
+def caret_commit_grid(rows_for, hs, schemas=("vs_script", "vs_fluid", "vs_table", "vs_multi", "vs_punct", "vs_kb", "vs_ac")):
+    """directed: the composition is committed — through the API, by Return, by space — while the caret is NOT at the end of
+    the input (moved there by Left / Home / set_caret_pos, after a partial selection or not): what is delivered is the preview
+    reported just before, and the input behind the caret is not composed afterwards"""
+    rows = [("a", "A1", "", ""), ("a", "A2", "", ""), ("ab", "AB", "", ""), ("b", "B1", "", ""), ("abc", "ABC", "", ""), ("c", "C1", "", "")]
+    for sid in schemas:
+        tid = "cc_" + sid
+        rows_for[tid] = rows
+        for w in ("ab", "abc", "abca"):
+            typed = ["key %d 0" % ord(ch) for ch in w]
+            for mid in (["key %d 0" % XK["Left"]], ["key %d 0" % XK["Left"]] * 2, ["key %d 0" % XK["Home"]], ["caret 1"], ["caret 2"],
+                        ["select 1", "caret 2"], ["key %d 0" % XK["Left"], "key 98 0"]):
+                for fin in (["commit"], ["key %d 0" % XK["Return"]], ["key %d 0" % XK["space"]]):
+                    hs.append((sid, typed + mid + fin + ["read_commit", "key 99 0", "commit", "read_commit"], tid))
+
+
 def earlier_match_grid(rows_for, hs, schemas=("vs_auto", "vs_autof")):
     """directed: auto_select without a code-length bound.  When a key leaves the input without candidates, the speller falls
     back to the previous segment's match (AutoSelectPreviousMatch) or shortens the input until an earlier match is found
@@ -1417,6 +1438,7 @@ def standard_histories(c, n_hist, n_ops, profile="mixed", schemas=None):
     paging_grid(rows_for, hs)
     reopen_grid(rows_for, hs)
     earlier_match_grid(rows_for, hs)
+    caret_commit_grid(rows_for, hs)
     punct_grid(rows_for, hs)
     prev_match_punct_grid(rows_for, hs)
     kb_grid(rows_for, hs, c.rng if c.tier == "quick" else None)
